@@ -12,25 +12,31 @@ import (
 	parsec "github.com/prataprc/goparsec"
 )
 
+// keyword matches a basic type name. The name must not be followed by
+// an identifier character: "strange" is a type reference, not "str".
+func keyword(name string) parsec.Parser {
+	return parsec.Token(name+`\b`, "")
+}
+
 func basicType() parsec.Parser {
 	return parsec.OrdChoice(nodifyBasicType,
-		parsec.Atom("int8", ""),
-		parsec.Atom("uint8", ""),
-		parsec.Atom("int16", ""),
-		parsec.Atom("uint16", ""),
-		parsec.Atom("int32", ""),
-		parsec.Atom("uint32", ""),
-		parsec.Atom("int64", ""),
-		parsec.Atom("uint64", ""),
-		parsec.Atom("float32", ""),
-		parsec.Atom("float64", ""),
-		parsec.Atom("int64", ""),
-		parsec.Atom("uint64", ""),
-		parsec.Atom("bool", ""),
-		parsec.Atom("str", ""),
-		parsec.Atom("obj", ""),
-		parsec.Atom("any", ""),
-		parsec.Atom("unknown", ""))
+		keyword("int8"),
+		keyword("uint8"),
+		keyword("int16"),
+		keyword("uint16"),
+		keyword("int32"),
+		keyword("uint32"),
+		keyword("int64"),
+		keyword("uint64"),
+		keyword("float32"),
+		keyword("float64"),
+		keyword("int64"),
+		keyword("uint64"),
+		keyword("bool"),
+		keyword("str"),
+		keyword("obj"),
+		keyword("any"),
+		keyword("unknown"))
 }
 
 // Context catures the current state of the parser.
